@@ -18,6 +18,9 @@ import Lattigo.Model.Shamir
         → shares aggregated one after the other into a zero polynomial : `err` | M
     addshare <nq> <ms:v> <threshold> <own> <others:v> <ownPoint> <actives:v> <share:M>
         → NewCombiner(own, others, threshold).GenAdditiveShare(actives, ownPoint, share) : `err` | `panic` | M
+    addshare_seq <nq> <ms:v> <threshold> <own> <others:v> <k> <call_1> … <call_k>
+        call = `ownPoint:actives:share`; ONE combiner, the calls in sequence (scratch buffer threaded)
+        → the k outcomes joined by `|`
     run <nq> <ms:v> <threshold> <N> <nd> <dealer_1> … <dealer_nd> <np> <party_1> … <party_np>
         dealer = its Shamir polynomial, coefficient matrices joined by `|`
         party  = `own:others:actives`
@@ -42,8 +45,22 @@ def parseDealer? (nq : Nat) (s : String) : Option ShamirPoly := do
   let ms ← (s.splitOn "|").mapM parseMat?
   some (ms.map fun m => ⟨nq, m⟩)
 
+def parseCall? (nq : Nat) (s : String) : Option Call :=
+  match s.splitOn ":" with
+  | [o, act, sh] => do some ⟨← parseVec? act, ← o.toNat?, ⟨nq, ← parseMat? sh⟩⟩
+  | _ => none
+
 def handleOpt (toks : List String) : Option String :=
   match toks with
+  | "addshare_seq" :: nq :: ms :: thr :: own :: others :: k :: rest => do
+      let r : RingQP := ⟨← nq.toNat?, ← parseVec? ms⟩
+      let thr ← thr.toInt?
+      let own ← own.toNat?
+      let others ← parseVec? others
+      let k ← k.toNat?
+      let calls ← rest.mapM (parseCall? r.nq)
+      if calls.length ≠ k then none
+      some ("|".intercalate ((runCalls (newCombiner r own others thr) (r.ms.map fun _ => 0) calls).map showOutcome))
   | "genpoly" :: nq :: thr :: secret :: k :: rest => do
       let nq ← nq.toNat?
       let thr ← thr.toInt?
